@@ -1,5 +1,6 @@
 """C16 — one instant, one value on every path: single-parser layering only."""
 from .util import *
+import json
 from ..callgraph import CallGraph
 
 EXPLANATION = """
@@ -14,10 +15,12 @@ with_timezone / timestamp - no calendar truncation (date_naive, and_hms…) and 
 (date_naive(dt) + and_hms_opt(hour(dt) | 0, 0, 0)), that naive time is interpreted in dt's own timezone (and_local_timezone(.., dt.timezone()), directly or through a
 same-module helper), and bucket_of maps each granularity to its own sibling in both the cached-timezone and the UTC branch;
 (f) the bucketers never unwrap the LocalResult of a local-time interpretation (and_local_timezone / from_local_datetime / with_ymd_and_hms; panics for every instant whose bucket start is a repeated or skipped local time - DST).
+(g) a float spelled time is range-checked: in TimeParser::normalize_json_value every store into the value that uses the result of a float-to-int cast (saturating in Rust) is control-dependent on a test
+of that same result (today: chrono can represent it) - 1e300 would otherwise be accepted and stored as i64::MAX.
 Does NOT decide the parser's arithmetic (digit-count boundaries, pre-1970, offsets), float epochs, or how ambiguous/skipped local times are resolved.
 """
-FLOOR = 6
-REQUIRED = ["C16.a", "C16.b", "C16.c", "C16.d", "C16.e", "C16.f"]
+FLOOR = 7
+REQUIRED = ["C16.a", "C16.b", "C16.c", "C16.d", "C16.e", "C16.f", "C16.g"]
 
 CHRONO_PARSE = re.compile(r"^chrono::.*(parse_from_rfc3339|parse_from_rfc2822|parse_from_str|parse_and_remainder|FromStr>::from_str)$|^(time|humantime|dateparser|iso8601)::")
 PARSER_FNS = {"shared::time::TimeParser::parse_str_to_epoch_seconds", "shared::time::TimeParser::normalize_json_value"}
@@ -232,3 +235,53 @@ def run(ctx):
             raise AnchorMissing("a local-time interpretation in the bucketers")
         return bad
     ctx.run("C16.f", "K3 NOPATH", "CalendarTimeBucketer::*", "bucketing is total at DST transitions (no LocalResult::unwrap)", f)
+
+    def g_(inst):
+        b = F.fn("shared::time::TimeParser::normalize_json_value")
+        casts = []
+        for i in sorted(b.live_blocks()):
+            for st in b.blocks[i]["s"]:
+                v = st.get("v")
+                if v and v.get("r") == "cast" and "FloatToInt" in json.dumps(v) and len(st.get("a", [])) == 1:
+                    casts.append((i, st["a"][0]))
+        if not casts:
+            inst.sites.append("no float-to-int cast (floats are not accepted as times, or converted checked)")
+            return []
+        bad = []
+        for (cb, cl) in casts:
+            flow = {l for l, _ in b.flow_forward([cl])}
+            # stores through the `value` parameter fed by the cast
+            for i in sorted(b.live_blocks()):
+                for st in b.blocks[i]["s"]:
+                    if not st.get("a") or st["a"][0] != 1 or "*" not in st["a"]:
+                        continue
+                    v = st.get("v") or {}
+                    src = wide_all(b, v.get("o") or {}, partial=False) if v.get("r") == "use" else set()
+                    if not (src & (flow | {cl})):
+                        continue
+                    # control dependence on a test over the cast value
+                    ok = False
+                    for j in sorted(b.live_blocks()):
+                        if b.blocks[j]["t"]["t"] != "switch":
+                            continue
+                        si = b.switch_info(j)
+                        if not si:
+                            continue
+                        opl = None
+                        if si["kind"] == "bool":
+                            opl = si["op"]
+                        elif si["kind"] == "enum":
+                            opl = si.get("place")
+                        if opl is None:
+                            continue
+                        dep = wide_all(b, opl, partial=False)
+                        if cl in dep or (flow & dep):
+                            t = b.blocks[j]["t"]
+                            tg = [x[1] for x in t["v"]] + [t["else"]]
+                            if any(x is not None and b.dominates_edge((j, x), i) for x in tg):
+                                ok = True
+                    inst.sites.append("cast @ %s -> store @ %s: range-tested=%s" % (sp(b, cb), sp(b, i), ok))
+                    if not ok:
+                        bad.append(("float-time-unchecked", "normalize_json_value stores the result of a saturating float-to-int cast (%s) without testing its range: 1e300 is accepted as a time and stored as i64::MAX" % sp(b, cb), None))
+        return bad
+    ctx.run("C16.g", "K1 DOM", "TimeParser::normalize_json_value", "a float time is range-checked before it is stored", g_)
